@@ -35,6 +35,12 @@ fn emit_case(out: &mut dyn Write, o: &Opts, c: &Case, hist: &mut BTreeMap<String
             writeln!(out, "{}", l).unwrap();
         }
     }
+    if oc.api_checked > 0 {
+        *hist.entry("public_entry_points_compared".into()).or_insert(0) += oc.api_checked;
+    }
+    if let Some(a) = &oc.api {
+        writeln!(out, "O oracle fail:public-entry-point-differs-from-builder:{}:{} => ok", a, case_line(o.flags, c, "-").replace(' ', "_")).unwrap();
+    }
     if oc.panicked {
         note(hist, "outcome_panic");
     } else if oc.dm.is_none() {
@@ -261,6 +267,59 @@ pub fn sweep(out: &mut dyn Write, seed: u64, o: &Opts) {
         note(&mut hist, &format!("modes_{}", if modes == 63 { "all".to_string() } else if modes & 1 == 0 { "no_ascii".to_string() } else if modes.count_ones() == 1 { "single".to_string() } else { "subset".to_string() }));
         emit_case(out, o, &c, &mut hist);
     }
+    // 3. run-structured inputs (own random stream, so that the case set above is unchanged): two to four
+    // runs of one character class each with run lengths around the planner's look-ahead thresholds, and
+    // systematically a digit run of every length 1..=10 between two runs of other classes
+    {
+        let mut r2 = Rng::new(seed ^ 0x5255_4E53);
+        let classes: [&[u8]; 8] = [
+            b"ABCDEFGHIJKLMNOPQRSTUVWXYZ",
+            b"abcdefghijklmnopqrstuvwxyz",
+            b"0123456789",
+            b" ",
+            b"*>\r",
+            b"!\"#$%&'()+,-./:;<=?@[\\]^_",
+            b"\x80\xC8\xFF\xE9",
+            b"`{|}~\x7f\x00\x1d",
+        ];
+        let run = |cl: usize, len: usize, off: usize| -> Vec<u8> { (0..len).map(|i| classes[cl][(i + off) % classes[cl].len()]).collect() };
+        let mut emit_runs = |d: Vec<u8>, modes: u8, mask: u64, out: &mut dyn Write, hist: &mut BTreeMap<String, usize>| {
+            if o.ascii_enabled_only && modes & 1 == 0 { return; }
+            let c = Case { data: d, modes, mask, macros: true, fnc1: false, eci: None };
+            note(hist, "run_structured");
+            emit_case(out, o, &c, hist);
+        };
+        for a in [0usize, 1, 4, 6] {
+            for b in [0usize, 1, 4, 6] {
+                for digits in 1..=10usize {
+                    for (la, lb) in [(9usize, 4usize), (3, 2)] {
+                        let mut d = run(a, la, 0);
+                        d.extend(run(2, digits, 1));
+                        d.extend(run(b, lb, 22));
+                        emit_runs(d, 63, default_mask(), out, &mut hist);
+                    }
+                }
+            }
+        }
+        let lens_pick = [1usize, 2, 3, 4, 5, 6, 7, 8, 9, 10, 12, 13];
+        let n_runs = if o.n_random >= 100000 { 20000 } else { 4000 };
+        for _ in 0..n_runs {
+            let k = 2 + r2.below(3);
+            let mut d = vec![];
+            let mut prev = usize::MAX;
+            for _ in 0..k {
+                let mut cl = r2.below(classes.len());
+                if cl == prev { cl = (cl + 1) % classes.len(); }
+                prev = cl;
+                let len = *r2.pick(&lens_pick);
+                let off = if r2.chance(1, 2) { 0 } else { r2.below(7) };
+                d.extend(run(cl, len, off));
+            }
+            let modes = if r2.chance(3, 4) { 63 } else { gen_modes(&mut r2) };
+            let mask = match r2.below(4) { 0 | 1 => default_mask(), 2 => tight_single(&mut r2, d.len()), _ => (1u64 << 48) - 1 };
+            emit_runs(d, if modes == 0 { 63 } else { modes }, mask, out, &mut hist);
+        }
+    }
     for (k, v) in &hist {
         writeln!(out, "# {} {}", k, v).unwrap();
     }
@@ -304,6 +363,19 @@ pub fn gen_prefix(out: &mut dyn Write, which: &str, seed: u64, thorough: bool) {
     let mut hist: BTreeMap<String, usize> = BTreeMap::new();
     if which == "c16m" {
         let mut bodies: Vec<Vec<u8>> = vec![vec![], vec![b'A'], vec![0x1E], vec![0x04], vec![0x1E, 0x04], b"01".to_vec()];
+        // bodies that look like an envelope themselves
+        for inner in [HEAD05, HEAD06] {
+            for mid in [&b""[..], b"A", b"ABCDEF"] {
+                for trail in [&b""[..], &TRAIL[..]] {
+                    let mut b = inner.to_vec();
+                    b.extend_from_slice(mid);
+                    b.extend_from_slice(trail);
+                    bodies.push(b);
+                }
+            }
+        }
+        bodies.push([&b"AB"[..], &TRAIL[..]].concat());
+        bodies.push([&TRAIL[..], &TRAIL[..]].concat());
         for _ in 0..(if thorough { 20000 } else { 2000 }) {
             let n = rng.below(12);
             bodies.push(gen_data(&mut rng, n, &mut hist));
